@@ -223,7 +223,7 @@ pub fn check(c: &Case) -> Verdict {
         nontrivial = ntx_max >= 3;
     }
     let sample = serde_json::json!({"coin": coin.cli(), "tip": tip, "range": format!("{}..={}", s, e), "fault": desc, "fault_height": fault_h, "max_txs_in_block": ntx_max, "callback": c.cb.cli()});
-    Verdict::Pass(Pass { nontrivial, key: vpmodel::hashes::fnv64(format!("{}|{:?}|{}|{}|{}|{}", shape, kind, c.fault.as_ref().map(|f| f.bit >> 28).unwrap_or(0), coin.cli(), s == 0, in_range).as_bytes()).wrapping_add(key_of(c) & 0xff), classes, known: vec![], sub_evals: 1, sample: Some(sample) })
+    Verdict::Pass(Pass { nontrivial, key: vpmodel::hashes::fnv64(format!("{}|{:?}|{}|{}|{}|{}", shape, kind, c.fault.as_ref().map(|f| f.bit >> 28).unwrap_or(0), coin.cli(), s == 0, in_range).as_bytes()).wrapping_add(key_of(c) & 0xff), classes, known: vec![], sub_evals: 1, sample: Some(sample), extra_keys: vec![] })
 }
 
 /// thorough tier: every single-bit flip of the merkle and prev fields and of all tx bytes of a
